@@ -64,7 +64,7 @@ func flushStats() {
 		"uses_checked_for_dominance": stats.UsesChecked, "recover_block_relaxations": stats.RecoverRelaxed,
 		"unreachable_blocks_seen": stats.UnreachableBlks, "typing_rule_applications": stats.TypeRules,
 		"functions_with_free_type_params_structural_only": stats.TypeSkippedGen,
-		"if_with_same_targets_observed": stats.IfSameTarget, "stale_locals_entries_observed": stats.StaleLocals, "referrer_multiplicity_differs_observed": stats.ReferrerMultiplicityDiffers, "duplicate_edges_observed": stats.DuplicateEdges,
+		"if_with_same_targets_observed": stats.IfSameTarget, "stale_locals_entries_observed": stats.StaleLocals, "referrer_multiplicity_differs_observed": stats.ReferrerMultiplicityDiffers, "constantswitch_condition_assignable_not_identical_observed": stats.SwitchCondAssignable, "duplicate_edges_observed": stats.DuplicateEdges,
 	})
 	kinds := map[string]any{}
 	for k, v := range stats.InstrKinds {
